@@ -3,6 +3,7 @@ import SakuraVerif.Driver.DumpOps
 import SakuraVerif.Driver.LenOps
 import SakuraVerif.Driver.MsgOps
 import SakuraVerif.Driver.SutOps
+import SakuraVerif.Driver.ExprOps
 open Sakura Sakura.Wire Sakura.Driver
 
 def handle (line : String) : String :=
@@ -22,6 +23,8 @@ def handle (line : String) : String :=
   | ["convert", src] => "ok " ++ sutConvert src
   | ["sutspec", segs] => "ok " ++ sutExpected segs
   | ["zen2han", c] => s!"ok out={Sakura.Sut.zen2han (parseNat c)}"
+  | ["expr", tree] => "ok " ++ exprEval tree
+  | "builtin" :: name :: args => "ok " ++ builtinEval name args
   | _ => "bad-op"
 
 partial def loop (h : IO.FS.Stream) (out : IO.FS.Stream) : IO Unit := do
